@@ -18,7 +18,13 @@
      (or tried to send) a ping that nobody answered, with no message in between;
    * reset points: any received message, or the answer (PongCb g) to the
      CURRENT ping, i.e. g is the generation of the latest ping sent; an answer
-     to an earlier generation is not a reset point. *)
+     to an earlier generation is not a reset point;
+   * stream connections: the unit of the property is the MESSAGE.  Bytes that
+     arrive without completing a message (Frag t: part of a header, or a header
+     announcing a body that has not arrived) are not "a message received from
+     the peer": they are neither a reception time nor a reset point.  A message
+     is received at the time of the read that delivers its last byte (see the
+     byte-level section at the end of this file). *)
 From Coq Require Import ZArith NArith List Bool.
 From GoCoap Require Import Monitor.Model.
 Import ListNotations.
@@ -86,6 +92,7 @@ Definition is_reset (older : list item) (it : item) : bool :=
   | (Dgram _ _, o) => negb (has_close o)
   | (PongCb g, _) => g =? cur_gen older
   | (Tick _ _, _) => false
+  | (Frag _, _) => false
   end.
 
 (* consecutive failures since the last reset point *)
@@ -124,3 +131,49 @@ Fixpoint judge_all (P : params) (past rest : list item) : N :=
   end.
 
 Definition spec_ok (P : params) (trace : list item) : bool := (judge_all P [] trace =? 0)%N.
+
+(* ---- stream connections, byte level ---------------------------------------------
+   The peer's stream is a sequence of messages whose encoded sizes are [sizes]
+   (RFC 8323 3.2 framing: the size of a message is fixed by its own header); the
+   socket hands the bytes over in reads of arbitrary lengths (Model.bev).  Message
+   k has been received once ALL its bytes have been read, i.e. once the number of
+   bytes read so far reaches the sum of the first k sizes; its reception time is
+   the time of the read that crossed that mark.  Nothing here looks at the code. *)
+
+(* how many leading messages are complete once n bytes have been read *)
+Fixpoint complete (sizes : list Z) (n : Z) : nat :=
+  match sizes with
+  | [] => O
+  | s :: r => if s <=? n then S (complete r (n - s)) else O
+  end.
+
+Definition total (sizes : list Z) : Z := fold_right Z.add 0 sizes.
+
+(* k messages completed by a read at t: k receptions at t; none: a fragment *)
+Definition rx_evs (k : nat) (t : Z) : list ev :=
+  match k with O => [Frag t] | _ => repeat (Recv t) k end.
+
+(* the events (in the vocabulary above) a byte-level history amounts to, one group per byte-level event;
+   [got] = bytes read so far (the peer never sends more than the whole stream) *)
+Fixpoint sabs (sizes : list Z) (got : Z) (bh : list bev) : list (list ev) :=
+  match bh with
+  | [] => []
+  | BTick t ok :: r => [Tick t ok] :: sabs sizes got r
+  | BRead t n :: r =>
+      let got' := Z.min (got + Z.of_nat n) (total sizes) in
+      rx_evs (complete sizes got' - complete sizes got) t :: sabs sizes got' r
+  end.
+
+(* observed byte-level trace -> observed trace: whatever the monitor was seen to do
+   during a byte-level event is attached to the first event of its group *)
+Definition group_items (g : list ev) (o : list obs) : list item :=
+  match g with [] => [] | e :: r => (e, o) :: map (fun e' => (e', [])) r end.
+
+Fixpoint zip_items (gs : list (list ev)) (os : list (list obs)) : list item :=
+  match gs, os with
+  | g :: gr, o :: orest => group_items g o ++ zip_items gr orest
+  | _, _ => []
+  end.
+
+Definition stream_judge (P : params) (sizes : list Z) (btrace : list (bev * list obs)) : N :=
+  judge_all P [] (zip_items (sabs sizes 0 (map fst btrace)) (map snd btrace)).
